@@ -124,8 +124,11 @@ class World:
         for n in range(max_tries):
             blk.nonce = (start + n) & 0xFFFFFFFF
             blk._enc = blk._id = None
-            blk.sh, blk.cs, blk.bh = ref.evidence(self.chain, blk)
             self.counters["nonce_tries"] += 1
+            try:
+                blk.sh, blk.cs, blk.bh = ref.evidence(self.chain, blk)
+            except KeyError:        # a wrongly claimed height can select a block that is not an ancestor
+                continue
             if (blk.id() < blk.target) == below:
                 return blk
         raise RuntimeError("no nonce found")
